@@ -16,7 +16,7 @@ import (
 
 func init() {
 	register(&Check{ID: "C19", Level: "exploration",
-		Rule: "keys with a 12 s lifetime; at age 9.3 s (inside the last quarter) a burst of N in {1, 8, 64, 200} concurrent hits over several listeners while the upstream answers refreshes after 1.5 s (success) or fails them (connection closed / silent); probes after the refresh; " +
+		Rule: "keys with a 16 s lifetime; at age 12.3 s (inside the last quarter) a burst of N in {1, 8, 64, 200} concurrent hits over several listeners while the upstream answers refreshes after 1.5 s (success) or fails them (connection closed / silent); probes after the refresh; " +
 			"one evaluation = one hit/probe response judged; distinct non-trivial = distinct (burst size, refresh outcome, phase: burst-hit / after-refresh / after-failed-refresh) combinations observed",
 		Run: runC19})
 }
@@ -76,19 +76,24 @@ func runC19(c *Ctx) {
 	for rep := 0; rep < reps; rep++ {
 		for _, n := range bursts {
 			for _, oc := range []string{"rfok", "rfclose", "rfsilent"} {
-				keys = append(keys, &key{name: fmt.Sprintf("ok-n2-ttl12-%s-b%dr%dx%d.%s.test.", oc, n, rep, c.Seed, upOf[oc]), burst: n, outcome: oc, ttl: 12, hitAges: []float64{9.3}})
+				keys = append(keys, &key{name: fmt.Sprintf("ok-n2-ttl16-%s-b%dr%dx%d.%s.test.", oc, n, rep, c.Seed, upOf[oc]), burst: n, outcome: oc, ttl: 16, hitAges: []float64{12.3}})
 			}
 		}
 		// a refresh that takes 4.5 s, and a second burst 3.5 s after the one that started it
 		for i := 0; i < 2; i++ {
-			keys = append(keys, &key{name: fmt.Sprintf("ok-n2-ttl24-rflong-l%dr%dx%d.pipe.test.", i, rep, c.Seed), burst: 8, outcome: "rflong", ttl: 24, hitAges: []float64{18.3, 21.8}})
+			keys = append(keys, &key{name: fmt.Sprintf("ok-n2-ttl26-rflong-l%dr%dx%d.pipe.test.", i, rep, c.Seed), burst: 8, outcome: "rflong", ttl: 26, hitAges: []float64{19.8, 23.4}})
 		}
 		// many distinct questions in their refresh window at the same moment, slow refreshes
 		for i := 0; i < 48; i++ {
-			keys = append(keys, &key{name: fmt.Sprintf("ok-n1-ttl12-rfmany-m%dr%dx%d.pipe.test.", i, rep, c.Seed), burst: 1, outcome: "rfmany", ttl: 12, hitAges: []float64{9.3}, group: "many"})
+			keys = append(keys, &key{name: fmt.Sprintf("ok-n1-ttl16-rfmany-m%dr%dx%d.pipe.test.", i, rep, c.Seed), burst: 1, outcome: "rfmany", ttl: 16, hitAges: []float64{12.3}, group: "many"})
 		}
 	}
 	h := &chHist{}
+	lag := startLagMonitor()
+	defer lag.Stop()
+	// an entry is only relied upon while more than 2.3 s of its lifetime remain (1 s cache clock
+	// granularity + 1.3 s for scheduling)
+	const guard = 2300 * time.Millisecond
 	listeners := []string{"udp", "tcp", "gnet", "http", "fasthttp"}
 	// keep the pooled upstream connections busy: an idle pipelined connection is closed by its
 	// read deadline even with a query in flight, and the retry would look like a second refresh
@@ -144,9 +149,9 @@ func runC19(c *Ctx) {
 			if k.outcome == "rflong" || k.group == "many" {
 				return
 			}
-			ages := []float64{10.2, 11.95}
+			ages := []float64{13.0, 14.7, 15.4}
 			if k.outcome != "rfok" {
-				ages = []float64{10.1, 10.5}
+				ages = []float64{12.9, 13.3}
 			}
 			for _, age := range ages {
 				sleepUntil(age)
@@ -168,6 +173,20 @@ func runC19(c *Ctx) {
 	if !alive {
 		c.Violation("proxy-died", "the proxy died in the C19 scenario: "+res.Panic, map[string]any{"panic": res.Panic})
 		return
+	}
+	overloaded := lag.overloaded()
+	c.Ev.Set("max_timer_lag_ms", lag.Max().Milliseconds())
+	if overloaded {
+		c.Inconclusive(fmt.Sprintf("machine overloaded (timer lag %v): lifetime-dependent verdicts are not sound, they are recorded as inconclusive", lag.Max()))
+	}
+	// verdicts that rely on "the entry is still alive" are only sound when timers (here and in the
+	// proxy's cache clock) are not starved
+	lifeViolation := func(sig, what string, cs map[string]any) {
+		if overloaded {
+			c.Ev.Count("lifetime_dependent_candidates_dropped_because_overloaded", 1)
+			return
+		}
+		c.Violation(sig, what, cs)
 	}
 	manyHits, manySlow := 0, 0
 	defer func() {
@@ -203,7 +222,7 @@ func runC19(c *Ctx) {
 			}
 			lat := time.Duration(r.TRecv - r.TSend)
 			age := time.Duration(r.TSend - k.first.TRecv)
-			if age > time.Duration(k.ttl)*time.Second-1300*time.Millisecond { // scheduling pushed this hit outside the guaranteed lifetime
+			if age > time.Duration(k.ttl)*time.Second-guard { // scheduling pushed this hit outside the guaranteed lifetime
 				c.Inconclusive("burst hit sent too late")
 				continue
 			}
@@ -212,7 +231,7 @@ func runC19(c *Ctx) {
 				continue
 			}
 			if r.Serial != old {
-				c.Violation("hit-not-from-cache:"+k.outcome, fmt.Sprintf("a query at age %v of a 12 s entry was answered with reply %d instead of the cached reply %d", age, r.Serial, old), cs(map[string]any{"serial": r.Serial, "listener": r.Listener}))
+				lifeViolation("hit-not-from-cache:"+k.outcome, fmt.Sprintf("a query at age %v of a %d s entry was answered with reply %d instead of the cached reply %d", age, k.ttl, r.Serial, old), cs(map[string]any{"serial": r.Serial, "listener": r.Listener}))
 				continue
 			}
 			okHits++
@@ -278,7 +297,7 @@ func runC19(c *Ctx) {
 			}
 		}
 		if len(fs) < 2 && okHits > 0 {
-			c.Violation("no-refresh:"+k.outcome, fmt.Sprintf("%d hits in the last quarter of the entry's lifetime did not start any background refresh", okHits), cs(nil))
+			lifeViolation("no-refresh:"+k.outcome, fmt.Sprintf("%d hits in the last quarter of the entry's lifetime did not start any background refresh", okHits), cs(nil))
 			continue
 		}
 		phase := "burst-hit"
@@ -308,20 +327,20 @@ func runC19(c *Ctx) {
 								maxTTL = rr.Header().Ttl
 							}
 						}
-						if maxTTL > 12 {
-							c.Violation("refresh-ttl", fmt.Sprintf("renewed entry shows ttl %d > 12", maxTTL), cs(nil))
+						if maxTTL > uint32(k.ttl) {
+							c.Violation("refresh-ttl", fmt.Sprintf("renewed entry shows ttl %d > %d", maxTTL, k.ttl), cs(nil))
 							continue
 						}
 						c.Ev.Distinct(k.burst, k.outcome, "after-refresh")
 						c.Ev.Count("probes_showing_renewed_entry", 1)
 					}
-				} else if age < 10700*time.Millisecond && r.Serial != old && r.Serial != 0 && (len(fs) < 2 || r.Serial != fs[1].Serial) {
-					c.Violation("hit-not-from-cache:"+k.outcome, fmt.Sprintf("probe at age %v shows reply %d, neither the cached one (%d) nor the refresh", age, r.Serial, old), cs(nil))
+				} else if age < time.Duration(k.ttl)*time.Second-guard && r.Serial != old && r.Serial != 0 && (len(fs) < 2 || r.Serial != fs[1].Serial) {
+					lifeViolation("hit-not-from-cache:"+k.outcome, fmt.Sprintf("probe at age %v shows reply %d, neither the cached one (%d) nor the refresh", age, r.Serial, old), cs(nil))
 				}
 			default: // failed refresh: the old entry stays usable until it expires
-				if age < 10700*time.Millisecond {
+				if age < time.Duration(k.ttl)*time.Second-guard {
 					if r.Serial != old {
-						c.Violation("failed-refresh-lost-entry:"+k.outcome, fmt.Sprintf("after a failed refresh the probe at age %v (entry lifetime 12 s) was not answered from the old entry (rcode %d, reply %d, cached %d)", age, r.Rcode, r.Serial, old), cs(map[string]any{"serial": r.Serial, "rcode": r.Rcode}))
+						lifeViolation("failed-refresh-lost-entry:"+k.outcome, fmt.Sprintf("after a failed refresh the probe at age %v (entry lifetime 16 s) was not answered from the old entry (rcode %d, reply %d, cached %d)", age, r.Rcode, r.Serial, old), cs(map[string]any{"serial": r.Serial, "rcode": r.Rcode}))
 						continue
 					}
 					c.Ev.Distinct(k.burst, k.outcome, "after-failed-refresh")
